@@ -173,8 +173,14 @@ def run(ctx):
             t = [l for l, e in lits if l[0] == 'truth' and l[2] is True and re.search(r'verify_hmac|verify_sha|' + var, fmt_sym(fb, l[1]))]
             t += [l for l, e in lits if l[0] == 'truth' and l[2] is True and l[1][0] == 'place']
             key = '%s:Ok#%d' % (fn, j)
+            defs = named_local_defs(fb, Ff, var)
+            want = r'^hash::verify_hmac_sha(1|256)\(' if fn.startswith('symmetric') else r'^Try::branch\(PKey::verify_\w+\(.*\)\)@Continue\.0$'
+            badd = [d for d in defs if not re.search(want, d)]
+            if not defs or badd:
+                r.fail(rule, key + ':provenance', '`%s` in %s is not the boolean returned by the verification primitive (%s)' % (var, fn, (badd or ['no definition'])[0][:100]), loc=fb.loc)
+                continue
             if t:
-                r.ok(rule, key, 'Ok only on the true edge of `%s`' % fmt_sym(fb, t[0][1])[:80], loc=fb.loc)
+                r.ok(rule, key, 'Ok only on the true edge of `%s`, each definition of which is the primitive\'s boolean result' % fmt_sym(fb, t[0][1])[:80], loc=fb.loc)
             else:
                 r.fail(rule, key, fn + ' returns Ok without the verification result being true', loc=fb.loc)
     # ---------------- (iv)
